@@ -2,7 +2,8 @@
 # usage: tools/seededwave.sh <tier> [id-prefix]   every stored seeded change against the check of its property (3 at a time)
 tier="${1:-quick}"; pre="$2"
 cd /verif
-ls seeded | grep "^$pre" | xargs -P 3 -I{} sh -c '
+# (changes whose meta.json says skip_in_waves - outside every property's quantifier, or neutralised by a later fix - are listed, not run)
+ls seeded | grep "^$pre" | while read id; do if grep -q '"skip_in_waves": true' seeded/$id/meta.json; then echo "$id - SKIPPED (see meta.json)" >&2; else echo $id; fi; done | xargs -P 3 -I{} sh -c '
   prop=$(python3 -c "import json;print(json.load(open(\"seeded/{}/meta.json\"))[\"property\"])")
   out=$(tools/mutest.sh seeded/{}/patch.diff '"$tier"' $prop 2>&1)
   if echo "$out" | grep -q "^VIOLATION"; then res=CAUGHT; elif echo "$out" | grep -q "^ERROR\|patch does not\|does not build"; then res=ERROR; else res=MISSED; fi
